@@ -252,6 +252,14 @@ def specs(tier: str) -> list[Spec]:
                               ("wait(w=1,n=1)", "wait", lambda: wf_wait(1, n=1), {"scripts": resp_scripts(1), "max_dev": d + 1})):
         sp.append(Spec(name + "/after_cancel", {"family": fam, "paused_by": "cancel_run"}, mk, resume=True, resume_via="cancel", **kw))
     if not q:
+        for name, fam, mk, kw in (("fan(2,1)", "fan", lambda: wf_fan(2, 1), {}), ("retry_zero", "retry_zero", lambda: wf_retry_chain(0), {}),
+                                  ("retry_delay", "retry_delay", lambda: wf_retry_chain(2.0), {}), ("recover(2)", "recover", lambda: wf_recover(2), {}),
+                                  ("fan_retry(2,2,zero)", "fan_retry", lambda: wf_fan(2, 2, "zero", fail_uids=(0,)), {"max_dev": 5}),
+                                  ("wait(w=2,n=2)", "wait", lambda: wf_wait(2, n=2), {"scripts": resp_scripts(2), "max_dev": 4})):
+            sp.append(Spec(name + "/after_cancel/2x", {"family": fam, "paused_by": "cancel_run", "resumes": 2}, mk, resume=True,
+                           resume_via="cancel", resume_count=2, **kw))
+        sp.append(Spec("order(4)", {"family": "order"}, lambda: wf_order(4), resume=True))
+        sp.append(Spec("order(4)/after_cancel", {"family": "order", "paused_by": "cancel_run"}, lambda: wf_order(4), resume=True, resume_via="cancel"))
         sp.append(Spec("order(3)/after_cancel/2x", {"family": "order", "paused_by": "cancel_run", "resumes": 2}, lambda: wf_order(3),
                        resume=True, resume_via="cancel", resume_count=2))
         sp += [Spec("fan(4,2)", {"family": "fan"}, lambda: wf_fan(4, 2), resume=True, max_dev=4),
